@@ -2,7 +2,7 @@
 //!
 //! The real binary is (re)built from the repository's current working tree and run as a
 //! subprocess over the FULL product
-//!   {kh, ckh} x -t {Z,Q,F2,F3} x -c {absent,0,1,2,"0,1","1,1",H,T,"0,T","H,T",x,"1,",""}
+//!   {kh, ckh} x -t {Z,Q,F2,F3} x -c {absent,0,1,2,"0,1","1,1",H,T,"0,T","H,T",x,"1,","","0,0,0","1,2,3","H,T,H","1,0,",",0","0,,0","0,x"}
 //!   x {-, -m} x {-, -r} x link inputs (names, PD JSON, file paths, garbage).
 //! Oracle:
 //!  * a specification table (`spec`) written from the dispatch macros / the commands' documented
@@ -58,7 +58,7 @@ enum CT {
 const CMDS: [Cmd; 2] = [Cmd::Kh, Cmd::Ckh];
 const CTS: [CT; 4] = [CT::Z, CT::Q, CT::F2, CT::F3];
 /// `None` = option absent (the command's default "0")
-const CVALS: [Option<&str>; 13] = [
+const CVALS: [Option<&str>; 20] = [
     None,
     Some("0"),
     Some("1"),
@@ -72,6 +72,14 @@ const CVALS: [Option<&str>; 13] = [
     Some("x"),
     Some("1,"),
     Some(""),
+    // further malformed shapes: wrong arity, empty components, a non-scalar component
+    Some("0,0,0"),
+    Some("1,2,3"),
+    Some("H,T,H"),
+    Some("1,0,"),
+    Some(",0"),
+    Some("0,,0"),
+    Some("0,x"),
 ];
 
 impl Cmd {
